@@ -3,6 +3,7 @@ package interpreter
 import (
 	"bufio"
 	"fmt"
+	"io"
 	"os"
 	"strings"
 	"time"
@@ -21,6 +22,8 @@ func (n NativeClockFn) Arity() int {
 func (n NativeClockFn) String() string {
 	return "<native fn>"
 }
+
+var stdinReader *bufio.Reader
 
 // NativeInputFn defines the native `input` function for the interpreter.
 type NativeInputFn struct{}
@@ -49,10 +52,13 @@ func (n NativeInputFn) Call(i *Interpreter, arguments []interface{}) (interface{
 		fmt.Print(prompt)
 	}
 
-	// Read the input from the user
-	reader := bufio.NewReader(os.Stdin)
-	input, err := reader.ReadString('\n')
-	if err != nil {
+	// Read the input from the user. One reader is shared by all calls, so that
+	// what it buffered beyond the current line is not lost for the next call.
+	if stdinReader == nil {
+		stdinReader = bufio.NewReader(os.Stdin)
+	}
+	input, err := stdinReader.ReadString('\n')
+	if err != nil && !(err == io.EOF && input != "") {
 		return nil, fmt.Errorf("failed to read input: %v", err)
 	}
 
